@@ -104,6 +104,11 @@ pub fn replay(id: &str, doc: &Value) -> i32 {
             }
         }
         "C01" | "C11" if !case["resubmitted_parts_of"].is_null() => c01::replay_resubmit(case),
+        "C01" if !case["many_parameters"].is_null() => {
+            println!("{}", serde_json::to_string_pretty(case).unwrap_or_default());
+            println!("re-run: ./check C01 quick (the request is rebuilt from the number of parameters, their place, the carrier and the edit named above)");
+            1
+        }
         "C04" if !case["bystander_date"].is_null() => c04::replay_bystander(case),
         "C17" if !case["long_run_step"].is_null() => {
             println!("{}", serde_json::to_string_pretty(case).unwrap_or_default());
@@ -111,7 +116,7 @@ pub fn replay(id: &str, doc: &Value) -> i32 {
             1
         }
         "C18" if !case["slow_provider_ms"].is_null() => c18::replay_slow(case),
-        "C18" if !case["long_history_step"].is_null() => {
+        "C18" if !case["long_history_step"].is_null() || !case["new_names_run_step"].is_null() => {
             println!("{}", serde_json::to_string_pretty(case).unwrap_or_default());
             println!("re-run: ./check C18 quick (the history is repeated from a fresh process; the step number identifies where the outcome changed)");
             1
